@@ -29,10 +29,17 @@ var (
 	MetaVals = [][]byte{{1}, {0xde, 0xad, 0xbe, 0xef}, []byte("8-bytes!")}
 )
 
+// ClockSteps are the clock events drawn (the values of clock.Steps; not imported, to keep
+// this package free of the gribigo packages).
+var ClockSteps = []int64{1, 2, -1_000_000_000, -2_000_000_000, -3600_000_000_000, -5_000, 1_000_000_000, 86400_000_000_000}
+
 // Step is one step of a history: an operation or a flush.
 type Step struct {
 	Op    *gen.Op  `json:"op,omitempty"`
 	Flush []string `json:"flush,omitempty"`
+	// Clock != 0: before the step the wall clock the RIB/server reads is stepped, frozen or
+	// released (package clock: 1 = freeze, 2 = unfreeze, otherwise nanoseconds)
+	Clock int64 `json:"clock,omitempty"`
 }
 
 // History is a generated case for the RIB-level properties.
@@ -53,11 +60,12 @@ type Cfg struct {
 	Backups        int  // percent of groups with a backup group
 	Kinds          []string
 	NoReplace      bool
+	ClockPct       int // percent of steps before which the wall clock is stepped/frozen
 }
 
 // DefaultCfg is the C01-style configuration.
 func DefaultCfg() Cfg {
-	return Cfg{MinLen: 5, MaxLen: 30, FlushPct: 3, PartialFlush: true, Rich: 15, DupHops: 0, Backups: 15}
+	return Cfg{MinLen: 5, MaxLen: 30, FlushPct: 3, PartialFlush: true, Rich: 15, DupHops: 0, Backups: 15, ClockPct: 3}
 }
 
 func pct(t *rapid.T, p int, label string) bool {
@@ -412,7 +420,11 @@ func DrawHistory(t *rapid.T, cfg Cfg) History {
 		}
 		id++
 		o := DrawOp(t, m, cfg, id)
-		h.Steps = append(h.Steps, Step{Op: o})
+		stp := Step{Op: o}
+		if pct(t, cfg.ClockPct, "clock?") {
+			stp.Clock = pick(t, ClockSteps, "clock")
+		}
+		h.Steps = append(h.Steps, stp)
 		m.BeliefApply(o.NI, o.Proto())
 	}
 	return h
